@@ -101,6 +101,22 @@ pub struct ExpandOpts {
 pub struct WalkOpts {
     pub profile: Profile,
     pub expand: Option<ExpandOpts>,
+    /// choose from valid_actions_no_rep() instead of valid_actions(): the documented use of that list
+    /// (populating a transposition table) applies actions the repetition rules withhold. Only the
+    /// crash oracle (C19) is meaningful on such walks.
+    pub follow_norep: bool,
+    /// observe, besides every mid-turn main-line state, forks of it whose repetition history has
+    /// been extended so that turn-ending actions become third occurrences (see `fork_with_history`)
+    pub inject: Inject,
+}
+
+#[derive(Clone, Copy, Debug, PartialEq, Eq)]
+pub enum Inject {
+    No,
+    /// all variants at every eligible state
+    Auto,
+    /// replay: this variant at the final state only
+    AtEnd(u8),
 }
 
 pub enum Source<'a> {
@@ -115,6 +131,9 @@ pub struct Trace {
     pub actions: Vec<Action>,
     /// extra actions below the main line when the failure was inside an expansion
     pub branch: Vec<Action>,
+    /// the failure was observed on a fork of the last main-line state with an injected history
+    /// (variant number), see `fork_with_history`
+    pub fork: Option<u8>,
 }
 
 pub struct WalkFail {
@@ -194,6 +213,7 @@ pub fn choose(
         Capture,
         Revisit,
         Undo,
+        UndoOpp,
         Rabbit,
     }
     let b = bias % 16;
@@ -210,7 +230,8 @@ pub fn choose(
             _ => Cl::Uniform,
         },
         Profile::Cycle => match b {
-            0..=2 => Cl::Quiet,
+            0 | 1 => Cl::Quiet,
+            2 => Cl::UndoOpp,
             3..=6 => Cl::Pass,
             7..=11 => Cl::Undo,
             12 | 13 => Cl::Revisit,
@@ -243,6 +264,15 @@ pub fn choose(
         Cl::Uniform => vec![],
         Cl::Quiet => (0..n).filter(|&i| is_quiet(i)).collect(),
         Cl::Undo => (0..n).filter(|&i| undo_of(i)).collect(),
+        // take back what the opponent did in its last turn (by pushing / pulling its piece back)
+        Cl::UndoOpp => (0..n)
+            .filter(|&i| match to_maction(&offered[i]) {
+                MAction::Step { from, dir } => mem.prev_turn[!mo.gold_to_move as usize]
+                    .iter()
+                    .any(|&(pf, pd)| m::neighbour(pf, pd) == Some(from) && m::opposite(pd) == dir),
+                _ => false,
+            })
+            .collect(),
         Cl::Pass => (0..n).filter(|&i| offered[i] == Action::Pass).collect(),
         Cl::Enemy => (0..n).filter(|&i| is_enemy_step(mo, &offered[i])).collect(),
         Cl::Capture => (0..n)
@@ -407,6 +437,133 @@ impl<'o> Expander<'o> {
     }
 }
 
+
+/// The turn-ending actions of a state whose results are injected into the history by a variant:
+/// 0 = pass only, 1 = every turn-ending action that does not capture, 2 = every second one of those.
+fn fork_targets(mo: &Model, vanr: &[Action], variant: u8) -> Vec<(Board, bool)> {
+    let mut out: Vec<(Board, bool)> = vec![];
+    let mut k = 0usize;
+    for a in vanr.iter() {
+        let ma = to_maction(a);
+        if !mo.ends_turn(ma) {
+            continue;
+        }
+        if let Some((rb, removed)) = mo.result_board(ma) {
+            if !removed.is_empty() || rb == mo.turn_boards[0] {
+                continue; // a position with less material cannot have occurred earlier
+            }
+            let take = match variant {
+                0 => ma == MAction::Pass,
+                1 => true,
+                _ => {
+                    k += 1;
+                    k % 2 == 1
+                }
+            };
+            if take && !out.contains(&(rb, !mo.gold_to_move)) {
+                out.push((rb, !mo.gold_to_move));
+            }
+        }
+    }
+    out
+}
+
+/// Rebuilds a mid-turn play state through the public constructors with `extra` positions inserted
+/// twice each at the *old* end of its repetition history (as if those positions had occurred twice
+/// earlier in the game), and the same for the model. With `extra` empty the result must behave
+/// exactly like the original (checked by the caller); that is what justifies treating the forks as
+/// states a real game could be in. Not done after a capture in the current turn (the engine's history
+/// starts afresh there, nothing older can recur) and never with positions of different material.
+pub fn fork_with_history(eng: &GameState, mo: &Model, extra: &[(Board, bool)]) -> Option<(GameState, Model)> {
+    use arimaa_engine_step::{List, Phase, PieceBoard, PlayPhase, Zobrist};
+    if mo.setup || mo.step == 0 || mo.captured_this_turn {
+        return None;
+    }
+    let r = guard(|| {
+        let pp = eng.unwrap_play_phase();
+        let side = eng.is_p1_turn_to_move();
+        let step = eng.current_step();
+        let prev: Vec<PieceBoard> = pp.previous_piece_boards().to_vec();
+        if prev.len() != step || step == 0 || pp.piece_trapped_this_turn() {
+            return None;
+        }
+        let init = Zobrist::from_piece_board(prev[0].piece_board(), side, 0);
+        let hash = Zobrist::from_piece_board(eng.piece_board(), side, step);
+        let mut old: Vec<Zobrist> = pp.hash_history().iter().cloned().collect();
+        old.reverse();
+        let mut list = List::new();
+        for (b, g) in extra.iter() {
+            let z = Zobrist::from_piece_board(crate::props::piece_board_of(b).piece_board(), *g, 0);
+            list = list.append(z).append(z);
+        }
+        for z in old {
+            list = list.append(z);
+        }
+        let pbs = eng.piece_board();
+        let pb = PieceBoard::new(pbs.p1_pieces, pbs.elephants, pbs.camels, pbs.horses, pbs.dogs, pbs.cats, pbs.rabbits);
+        let phase = Phase::PlayPhase(PlayPhase::new(init, list, prev, pp.push_pull_state(), false));
+        Some(GameState::new(side, eng.move_number(), phase, pb, hash))
+    });
+    let feng = match r {
+        Ok(Some(g)) => g,
+        _ => return None,
+    };
+    let mut fm = mo.clone();
+    {
+        let h = std::sync::Arc::make_mut(&mut fm.history);
+        for (b, g) in extra.iter() {
+            h.list.insert(0, (*b, *g));
+            h.list.insert(0, (*b, *g));
+            *h.counts.entry((*b, *g)).or_insert(0) += 2;
+        }
+    }
+    Some((feng, fm))
+}
+
+/// Observes the forks of one state. Err = (failure, variant).
+fn observe_forks(eng: &GameState, mo: &Model, variants: &[u8], obs: &mut dyn Obs, st: &mut Stats) -> Result<(), (Fail, u8)> {
+    if mo.setup || mo.step == 0 || mo.captured_this_turn {
+        return Ok(());
+    }
+    // faithfulness of the reconstruction: with nothing injected the rebuilt state must be
+    // indistinguishable from the original
+    let (e0, _) = match fork_with_history(eng, mo, &[]) {
+        Some(x) => x,
+        None => {
+            st.bump("fork_not_built");
+            return Ok(());
+        }
+    };
+    let same = guard(|| {
+        e0.valid_actions() == eng.valid_actions()
+            && e0.valid_actions_no_rep() == eng.valid_actions_no_rep()
+            && e0.transposition_hash() == eng.transposition_hash()
+            && e0.is_terminal() == eng.is_terminal()
+            && e0.can_pass(true) == eng.can_pass(true)
+            && e0.can_pass(false) == eng.can_pass(false)
+    });
+    if same != Ok(true) {
+        st.bump("fork_skipped_reconstruction_differs");
+        return Ok(());
+    }
+    let vanr = match guard(|| eng.valid_actions_no_rep()) {
+        Ok(l) => l,
+        Err(_) => return Ok(()),
+    };
+    for &variant in variants {
+        let extra = fork_targets(mo, &vanr, variant);
+        if extra.is_empty() {
+            continue;
+        }
+        if let Some((fe, fm)) = fork_with_history(eng, mo, &extra) {
+            st.bump(&format!("fork_variant{}_observed", variant));
+            let v = View::new(&fe, &fm, true);
+            obs.on_state(&v, st).map_err(|f| (f, variant))?;
+        }
+    }
+    Ok(())
+}
+
 pub struct WalkEnd {
     pub steps: usize,
     pub ended_by: &'static str,
@@ -441,6 +598,13 @@ pub fn walk(
         let v = View::new(&eng, &mo, false);
         obs.on_state(&v, st).map_err(|f| wf(f, &trace))?;
         mem.seen.insert(mo.board);
+        if opts.inject == Inject::Auto {
+            if let Err((f, variant)) = observe_forks(&eng, &mo, &[0, 1, 2], obs, st) {
+                let mut t = trace.clone();
+                t.fork = Some(variant);
+                return Err(WalkFail { fail: Fail::new(&f.clause, format!("(on a fork of this state whose history holds the result of some turn-ending actions twice, variant {}) {}", variant, f.detail)), trace: t, inconclusive: false });
+            }
+        }
         // ---- expansion of the turn tree at (some) turn starts
         if let Some(ex) = opts.expand {
             if !mo.setup && mo.step == 0 && nodes_used < ex.max_nodes {
@@ -471,7 +635,7 @@ pub fn walk(
                 break;
             }
         }
-        let offered = match v.va() {
+        let offered = match if opts.follow_norep { v.vanr() } else { v.va() } {
             Ok(l) => l.clone(),
             Err(_) => {
                 st.bump("walks_cut_short_by_engine_panic");
@@ -543,6 +707,13 @@ pub fn walk(
         eng = next;
         mo = nm;
         i += 1;
+    }
+    if let Inject::AtEnd(variant) = opts.inject {
+        if let Err((f, variant)) = observe_forks(&eng, &mo, &[variant], obs, st) {
+            let mut t = trace.clone();
+            t.fork = Some(variant);
+            return Err(WalkFail { fail: f, trace: t, inconclusive: false });
+        }
     }
     {
         let v = View::new(&eng, &mo, false);
